@@ -41,6 +41,8 @@ fn configs() -> Vec<Cfg> {
         .strict(false),
     );
     v.push(Cfg { esi: true, ..Cfg::with(vec![HSpec::obs(HKind::Element, "*")]) });
+    // the ESI entry point with strict off (its two trailing booleans must not be confused)
+    v.push(Cfg { esi: true, ..Cfg::with(vec![HSpec::obs(HKind::Element, "*"), HSpec::obs(HKind::DocText, "")]).strict(false) });
     v
 }
 
@@ -236,6 +238,21 @@ mod inj {
                     }
                 }
             }
+            // two failures without a take in between: the LAST error is the one reported
+            {
+                let s1 = lol_html_selector_parse(b"a >".as_ptr() as *const c_char, 3);
+                let s2 = lol_html_selector_parse(b"a + b".as_ptr() as *const c_char, 5);
+                let e = take_last_error();
+                if !s1.is_null() || !s2.is_null() {
+                    st.lock().unwrap().problems.push("bad selector accepted".into());
+                }
+                if e.as_deref() != Some("Unsupported combinator `+` in selector.") {
+                    st.lock().unwrap().problems.push(format!("after two failing calls the last error is {e:?}, expected the second call's error"));
+                }
+                if take_last_error().is_some() {
+                    st.lock().unwrap().problems.push("last error not cleared after two failing calls".into());
+                }
+            }
             let sel = lol_html_selector_parse(b"a".as_ptr() as *const c_char, 1);
             let builder = lol_html_rewriter_builder_new();
             lol_html_rewriter_builder_add_element_content_handlers(builder, sel, Some(el), ud, Some(comment), ud, None, null);
@@ -270,6 +287,33 @@ mod inj {
             }
             lol_html_rewriter_free(r2);
             lol_html_selector_free(sel);
+            // a handler that ignores a failing setter and then stops the rewriter: write() fails and
+            // the last error is the rewriter's, not the stale setter error
+            {
+                unsafe extern "C" fn stopper(el: *mut Element, _ud: *mut c_void) -> RewriterDirective {
+                    unsafe {
+                        let _ = lol_html_element_set_attribute(el, b"a b".as_ptr() as *const c_char, 3, b"v".as_ptr() as *const c_char, 1);
+                    }
+                    RewriterDirective::Stop
+                }
+                let sel = lol_html_selector_parse(b"a".as_ptr() as *const c_char, 1);
+                let builder = lol_html_rewriter_builder_new();
+                lol_html_rewriter_builder_add_element_content_handlers(builder, sel, Some(stopper), null, None, null, None, null);
+                let r = lol_html_rewriter_build(builder, b"utf-8".as_ptr() as *const c_char, 5, lol_html::MemorySettings::new(), sink, ud, true);
+                let before = st.lock().unwrap().out.len();
+                let rc = lol_html_rewriter_write(r, doc.as_ptr() as *const c_char, doc.len());
+                let e = take_last_error();
+                if rc != -1 {
+                    st.lock().unwrap().problems.push("write() succeeded although a handler returned Stop".into());
+                }
+                if e.as_deref() != Some("The rewriter has been stopped.") {
+                    st.lock().unwrap().problems.push(format!("after Stop the last error is {e:?}, expected \"The rewriter has been stopped.\""));
+                }
+                st.lock().unwrap().out.truncate(before);
+                lol_html_rewriter_free(r);
+                lol_html_rewriter_builder_free(builder);
+                lol_html_selector_free(sel);
+            }
         }
         let mut s = st.lock().unwrap();
         let want = "S&lt;\u{e9}<a b=c>x<!--c--></a>S&lt;\u{e9}<a b=c>x<!--c--></a>";
